@@ -20,7 +20,7 @@ def cases(tier, seed):
     rng = random.Random('C15/%s' % seed)
     out = []
     fx = [f for f in files.fixtures() if 'padding/' not in f] + ['padding/padding_5x7.sgz', 'padding/padding_8x8.sgz']
-    nh = 2 if tier == 'quick' else 12
+    nh = 6 if tier == 'quick' else 16
     for rel in fx:
         for h in range(nh):
             out.append({'id': 'fix:%s:%d' % (rel, h), 'file': {'kind': 'fixture', 'rel': rel},
